@@ -125,10 +125,12 @@ Proof.
   destruct (_ && _); cbn; rewrite ?Hp; reflexivity.
 Qed.
 
-Lemma sync_done_L s : L (sync_done s) = L s.
+(** sync() never lowers the local head; it leaves it alone unless it drops a
+    pending head the store has already reached or passed *)
+Lemma sync_done_mono s : L s <= L (sync_done s).
 Proof.
-  unfold sync_done, L, local_head. destruct (s_pend s) as [pd|] eqn:Hp; [|rewrite ?Hp; reflexivity].
-  destruct (_ <? _); cbn; rewrite ?Hp; reflexivity.
+  unfold sync_done, L, local_head. destruct (s_pend s) as [pd|] eqn:Hp; [|rewrite ?Hp; lia].
+  destruct (N.ltb_spec (hgt (s_store s)) (h_height pd)); cbn; rewrite ?Hp; cbn; lia.
 Qed.
 
 Section withtv.
@@ -268,7 +270,7 @@ Proof.
   - apply N.le_refl.
   - apply gossip_mono.
   - rewrite sync_part_L. lia.
-  - rewrite sync_done_L. lia.
+  - apply sync_done_mono.
   - apply head_seq_bounds.
 Qed.
 
@@ -586,7 +588,7 @@ Proof.
   - intros [= <- <-]. exists 0%nat. apply spec_global. apply N.le_refl.
   - intros [= <- <-]. exists 0%nat. apply spec_global. apply gossip_mono.
   - intros [= <- <-]. exists 0%nat. apply spec_global. rewrite sync_part_L. lia.
-  - intros [= <- <-]. exists 0%nat. apply spec_global. rewrite sync_done_L. lia.
+  - intros [= <- <-]. exists 0%nat. apply spec_global. apply sync_done_mono.
   - intros H. exists i. eapply tstep_spec; eassumption.
 Qed.
 
@@ -1611,7 +1613,7 @@ Qed.
 Lemma sync_done_wf s : wf s -> wf (sync_done s).
 Proof.
   unfold sync_done, wf. intros Hwf. destruct (s_pend s) as [pd|] eqn:Hp; [|rewrite ?Hp; exact I].
-  destruct (_ <? _); cbn; [exact I|rewrite ?Hp; exact Hwf].
+  destruct (_ <? _); cbn; exact I.
 Qed.
 
 Lemma sstep_wf s e : wf s -> ev_sane s e -> wf (fst (sstep p tv s e)).
